@@ -322,3 +322,8 @@ Proof. exact cbuf_put_is_fifo_write. Qed.
 Print Assumptions C09_client_buffers_are_cbufs.
 Example C09_client_buffers_nonvacuous : cbuf_put [1; 2; 3]%N [4; 5]%N = ([1; 2; 3; 4; 5]%N, false).
 Proof. vm_compute. reflexivity. Qed.
+(* ... and the device buffers of Model/Script.v / Model/Device.v (process_send, the telnet replies, _handle_read): *)
+Theorem C09_device_buffers_are_cbufs : forall q bs,
+  Script.lastn (Z.to_nat MAX_DEV_BUF) (q ++ bs) = fifo_write MAX_DEV_BUF q bs.
+Proof. intros q bs. apply lastn_is_fifo_write. discriminate. Qed.
+Print Assumptions C09_device_buffers_are_cbufs.
